@@ -112,8 +112,9 @@ def run_case(rng, tier, idx):
                 _, St = conical.k0_oracle(pf, dd)
         bf, _ = energy.block(Kf, d['row0'], size_p)
         bs, _ = energy.block(Ks, d['row0'], size_p)
-        ratio, ij = entrywise_excess(bs, bf, St, 1e-9)
-        c.judge('sub-intervals tiling the width add up to the full matrix', ratio * 1e-9, 1e-9,
+        tolT = 1e-9 * gen.order_amplification(d)        # 0.73e-9 met at 11-12 terms in the thorough tier
+        ratio, ij = entrywise_excess(bs, bf, St, tolT)
+        c.judge('sub-intervals tiling the width add up to the full matrix', ratio * tolT, tolT,
                 data={'cuts': cuts, 'entry': ij, 'sum': bs[ij], 'full': bf[ij]})
     # the same object after its definition changed: k0 must be the energy Hessian of the panel as it is defined NOW
     if rng.random() < 0.3:
